@@ -4,6 +4,7 @@ import (
 	"fmt"
 	"strconv"
 	"strings"
+	"time"
 
 	"github.com/form3tech-oss/f1/v2/internal/verifsim/simrt"
 )
@@ -54,6 +55,18 @@ func h6Input(env *Env, c *H1Cfg, hr *h1Run, stats simrt.Stats) {
 		return
 	}
 	env.Hit("h6.input_accepted_and_run")
+	if in.Kind == "peakrate" && in.SpelledIvNs > 0 && !g.Cancelled && stats.Stalls == 0 && hr.HaveResult {
+		// around the peak (within 4 s of it, standard deviation 150 min) every one-second tick requests the peak rate
+		perTick := float64(in.SpelledN) * float64(time.Second) / float64(in.SpelledIvNs)
+		ticks := float64(1 + (c.MaxDurationNs-10*ms)/int64(time.Second))
+		got := float64(hr.Snap.Succ + hr.Snap.Fail + hr.Snap.Drop)
+		want := perTick * ticks
+		if got < 0.95*want-ticks || got > 1.02*want+ticks {
+			env.Violate("C14", "rate-means-something-else", "input/peakrate/"+rateShape(in.Input), "peak rate %q spells %d per %s = %.1f per one-second tick: %v ticks around the peak should request about %.0f iterations, %.0f were started or dropped",
+				in.Input, in.SpelledN, dur(in.SpelledIvNs), perTick, ticks, want, got)
+		}
+		env.Hit("h6.peak_rate_meaning_checked")
+	}
 	if in.Spelled && in.SpelledIvNs > 0 && c.Mode == "constant" && !g.Cancelled && stats.Stalls == 0 {
 		var started, dropped uint64
 		have := false
